@@ -160,3 +160,14 @@ mod tests {
         assert_eq!(order.discriminant(&theta), (-8640974550472704i64).into());
     }
 }
+
+/// Verification wrapper around the private Round 2 step (feature `verif-hooks` only).
+#[cfg(feature = "verif-hooks")]
+pub mod verif {
+    use crate::algebraic::Algebraic;
+    use crate::order::Order;
+    use num::BigInt;
+    pub fn one_step(theta: &Algebraic, o: &Order, p: &BigInt) -> (Order, u64) {
+        super::round2::one_step(theta, o, p)
+    }
+}
